@@ -41,6 +41,7 @@ type Config struct {
 	DropClientCert bool   `json:"drop_client_cert"` // take no part in AutoMTLS (impostor / pre-AutoMTLS build)
 	DropMuxEnv     bool   `json:"drop_mux_env"`     // behave like a plugin built before the multiplexing field existed
 	JitterUs       int    `json:"jitter_us"`        // sleep up to this many microseconds at every verifhook point (schedule perturbation)
+	LaunchLog      string `json:"launch_log"`       // append one byte to this file at every start of the process
 	DelayPoint     string `json:"delay_point"`      // sleep DelayMs at this named verifhook point
 	DelayMs        int    `json:"delay_ms"`
 }
@@ -221,6 +222,12 @@ func vmain() {
 	if err := json.Unmarshal([]byte(os.Getenv("VP_CONFIG")), &cfg); err != nil {
 		fmt.Fprintln(os.Stderr, "vplugin: bad VP_CONFIG:", err)
 		os.Exit(2)
+	}
+	if cfg.LaunchLog != "" {
+		if f, err := os.OpenFile(cfg.LaunchLog, os.O_APPEND|os.O_CREATE|os.O_WRONLY, 0o644); err == nil {
+			f.Write([]byte{'x'})
+			f.Close()
+		}
 	}
 	if cfg.Marker != "" {
 		defer func() { os.WriteFile(cfg.Marker, []byte("clean-exit"), 0o644) }()
